@@ -1588,6 +1588,7 @@ func run(c *mc.Ctx) {
 	c.Require("randomised/zero", 50)
 	c.Require("randomised/streamB", 50)
 	c.Require("randomised/streamA-one-byte-reads", 50)
+	hashIdentifiers(c)
 }
 
 func tightPriv0(p ed.PrivateKey) ed.PrivateKey { return ed.PrivateKey(append([]byte{}, p...)) }
